@@ -281,14 +281,21 @@ def _alarm(signum, frame):
 
 
 def with_watchdog(fn, seconds=2.0):
-    """run fn() under a wall-clock watchdog; a pure-Python hang is interrupted"""
-    old = signal.signal(signal.SIGALRM, _alarm)
-    signal.setitimer(signal.ITIMER_REAL, seconds)
+    """run fn() under a watchdog that counts the CPU time of THIS process (ITIMER_PROF): a pure-Python hang (a loop
+    that does not advance, catastrophic regex backtracking) burns CPU and is interrupted after `seconds`, while a
+    machine that is merely busy — other checks running, a loaded grader — cannot make a fast case look like a hang.
+    A wall-clock backstop (30x, at least 60 s) remains for anything that blocks without using CPU."""
+    old_prof = signal.signal(signal.SIGPROF, _alarm)
+    old_alrm = signal.signal(signal.SIGALRM, _alarm)
+    signal.setitimer(signal.ITIMER_PROF, seconds)
+    signal.setitimer(signal.ITIMER_REAL, max(60.0, 30 * seconds))
     try:
         return fn()
     finally:
+        signal.setitimer(signal.ITIMER_PROF, 0)
         signal.setitimer(signal.ITIMER_REAL, 0)
-        signal.signal(signal.SIGALRM, old)
+        signal.signal(signal.SIGPROF, old_prof)
+        signal.signal(signal.SIGALRM, old_alrm)
 
 
 def drive(lines):
